@@ -1,5 +1,5 @@
 """Which contracts decide which property."""
-from . import indexing
+from . import indexing, bases
 
 GLOBAL_ASSUMPTIONS = [
     "NumPy implements the contracts in dverif/symnp.py (validated by sampling against the installed NumPy, never proved)",
@@ -10,8 +10,9 @@ GLOBAL_ASSUMPTIONS = [
 ]
 
 PROPERTIES = {
+    "T": {"contracts": [bases.AxisLoc], "level": "proof"},
     "C02": {
-        "contracts": [indexing.LocateSlice],
+        "contracts": [indexing.LocateSlice, (indexing.LocateOne, r"^exact"), (bases.AxisLoc, r"^slice-")],
         "level": "proof",
         "min_obligations": 100,
     },
